@@ -146,15 +146,54 @@ def replay(scr, pkg, scenarios, tag, run="TestVerifReplay", shards=NCPU, race=Fa
     traces = []
 
     def one(job):
+        """Runs one shard.  A panic on a goroutine spawned by the code under test kills the whole
+        test process (exactly what C13 is about): the crashed scenario is identified from the
+        partially written trace, a synthetic Panic event is appended for it, and the remaining
+        scenarios of the shard are run in a fresh process."""
         scn, trc = job
-        rc, out = run_test_binary(binary, run, {"VERIF_SCN": scn, "VERIF_TRACE": trc}, timeout=timeout)
-        return rc, out, trc
+        todo = [json.loads(l) for l in open(scn)]
+        out_files = []
+        rnd = 0
+        while todo:
+            rnd += 1
+            scn_r, trc_r = "%s.r%d" % (scn, rnd), "%s.r%d" % (trc, rnd)
+            with open(scn_r, "w") as fh:
+                for sc in todo:
+                    fh.write(json.dumps(sc, separators=(",", ":")) + "\n")
+            rc, out = run_test_binary(binary, run, {"VERIF_SCN": scn_r, "VERIF_TRACE": trc_r}, timeout=timeout)
+            if rc == 0:
+                out_files.append(trc_r)
+                break
+            if ("panic:" in out or "fatal error:" in out) and "MACHINERY" not in out and os.path.exists(trc_r):
+                lines = [l for l in open(trc_r) if l.strip()]
+                good = []
+                for l in lines:
+                    try:
+                        good.append(json.loads(l))
+                    except Exception:
+                        break
+                if not good:
+                    return rc, out, []
+                crashed = good[-1]["sc"]
+                ids = [sc["id"] for sc in todo]
+                if crashed not in ids:
+                    return rc, out, []
+                msg = out[out.find("panic:"):][:600] if "panic:" in out else out[out.find("fatal error:"):][:600]
+                with open(trc_r, "w") as fh:
+                    for ev in good:
+                        fh.write(json.dumps(ev, separators=(",", ":")) + "\n")
+                    fh.write(json.dumps({"ev": "Panic", "sc": crashed, "i": good[-1]["i"] + 1, "msg": msg, "process": True}) + "\n")
+                out_files.append(trc_r)
+                todo = todo[ids.index(crashed) + 1:]
+                continue
+            return rc, out, []
+        return 0, "", out_files
 
     with cf.ThreadPoolExecutor(max_workers=shards) as ex:
-        for rc, out, trc in ex.map(one, jobs):
+        for rc, out, files in ex.map(one, jobs):
             if rc != 0:
                 raise Inconclusive("replay driver failed (rc=%d):\n%s" % (rc, out[-3000:]))
-            traces.append(trc)
+            traces += files
     return traces
 
 
